@@ -13,6 +13,7 @@ RULE = (
     "(list/tuple/ndarray). Oracle (independent model): result quantity == left operand's quantity and value == "
     "a.value +/- b.value*prod((slope(u_b)/slope(u_a))**E) (rel 1e-9 of |a|+|b'|); (a+b)-b ~ a (Scalars and Arrays), a op b twice on the same operand objects gives the same values; mag(a+b) ~ mag(b+a). "
     "Simple exponent-1 quantities additionally over affine units against a.value +/- Convert(u_b->u_a, b.value); units with an offset also under exponents -2..3 inside derived operands (1/degC + 1/K, psig2, with or without a second factor), where the ratio is the ratio of the unit sizes. "
+    "A left operand created directly on a derived quantity that writes one quantity type in two units under two categories (m.km): amount in base units, categories, repeatability and b op a, and the units against the bug model of known finding 30. "
     "Non-trivial = operands differ in a unit of a shared type and (some |exponent|>=2 or >=2 quantity types); "
     "distinct key = (instance a, instance b, op, container)."
 )
@@ -130,6 +131,59 @@ class Checker:
                 if not core.close(m1, m2, abs(ma), 1e-9):
                     ctx.fail("addition_not_commutative:%s" % key_suffix, case, "a+b = %r (base magnitude %r) but b+a = %r (base magnitude %r)" % (r, m1, r2, m2))
 
+    def check_mixed(self, case):
+        """the left operand was created directly on a derived quantity that writes one quantity type in two units
+        under two categories (m.km); b has the same dimension in one unit per type"""
+        from collections import OrderedDict
+
+        from barril.units import Array, Quantity, Scalar
+
+        ctx, db, um = self.ctx, self.db, self.um
+        fa, fb, kind, x, y, op = case["a"], case["b"], case["kind"], case["x"], case["y"], case["op"]
+        qa = Quantity.CreateDerived(OrderedDict((c, [u, e]) for c, u, e in fa))
+        qb = Quantity.CreateDerived(OrderedDict((c, [u, e]) for c, u, e in fb))
+        if kind == "scalar":
+            a, b = Scalar.CreateWithQuantity(qa, x), Scalar.CreateWithQuantity(qb, y)
+        else:
+            a, b = Array.CreateWithQuantity(qa, gen.as_container(kind, [x, 2 * x])), Array.CreateWithQuantity(qb, gen.as_container(kind, [y, 3 * y]))
+        unit_a = unit_b = 1.0
+        for c, u, e in fa:
+            unit_a *= um.slope[u] ** e
+        for c, u, e in fb:
+            unit_b *= um.slope[u] ** e
+        ctx.cls("left_operand_mixes_units_of_one_type")
+        ctx.nontrivial(("mixed", repr(fa), repr(fb), op, kind), case)
+        sign = 1.0 if op == "+" else -1.0
+        for what, l, r_, ul, ur, vl, vr, fl in (("a%sb" % op, a, b, unit_a, unit_b, x, y, fa), ("b%sa" % op, b, a, unit_b, unit_a, y, x, fb)):
+            r = l + r_ if op == "+" else l - r_
+            ctx.ev()
+            q = r.GetQuantity()
+            v0 = r.GetValue() if kind == "scalar" else float(list(r.GetValues())[0])
+            from bv.model import mag_of
+
+            want_mag = vl * ul + sign * vr * ur
+            got_mag = mag_of(um, q, v0)
+            if not core.close(got_mag, want_mag, abs(vl * ul) + abs(vr * ur), 1e-9):
+                ctx.fail("sum_amount_wrong:mixed_units_in_one_type", case, "%s with a=%r, b=%r = %r: %r in base units, expected %r" % (what, a, b, r, got_mag, want_mag))
+            got_cats = [(c, e) for c, (u, e) in q.GetCategoryToUnitAndExps().items()]
+            if got_cats != [(c, e) for c, u, e in fl]:
+                ctx.fail("result_categories_not_left_operands:mixed_units_in_one_type", case, "%s = %r has categories %r, the left operand %r" % (what, r, got_cats, fl))
+            got_units = [u for c, (u, e) in q.GetCategoryToUnitAndExps().items()]
+            if got_units != [u for c, u, e in fl]:
+                # bug model: the left operand's own units are matched to each other first (the unit written first for a
+                # quantity type wins), and the result is expressed in those
+                first = {}
+                for c, u, e in fl:
+                    first.setdefault(um.qt[u], u)
+                if got_units == [first[um.qt[u]] for c, u, e in fl]:
+                    ctx.fail("result_units_not_left_operands:left_operand_mixes_units_of_one_type:normalised_to_first_unit_of_the_type", case, "%s = %r is expressed in %r, the left operand in %r (the amount is right)" % (what, r, got_units, [u for c, u, e in fl]))
+                else:
+                    ctx.fail("result_units_not_left_operands:mixed_units_in_one_type", case, "%s = %r is expressed in %r, the left operand in %r" % (what, r, got_units, [u for c, u, e in fl]))
+            r2 = l + r_ if op == "+" else l - r_
+            v2 = r2.GetValue() if kind == "scalar" else float(list(r2.GetValues())[0])
+            if v2 != v0 or repr(r2.GetQuantity()) != repr(q):
+                ctx.fail("sum_not_repeatable:mixed_units_in_one_type", case, "%s computed twice on the same operands gives %r and then %r" % (what, r, r2))
+
     def check_affine(self, case):
         """exponent-1 quantities over any unit of the type, incl. affine: statement's own wording."""
         from barril.units import Scalar
@@ -231,7 +285,33 @@ def _strategies(ch):
             "affine_derived": True,
         }
 
-    return pair_case(), affine_case(), affine_derived_case()
+    mqts = [qt for qt in pool.qts if len(pool.cats[qt]) >= 2 and len(pool.units[qt]) >= 2]
+
+    @st.composite
+    def mixed_case(draw):
+        qt = draw(st.one_of(st.sampled_from([q for q in pool.fav if q in mqts] or mqts), st.sampled_from(mqts)))
+        c1, c2 = draw(st.permutations(pool.cats[qt]))[:2]
+        u1, u2 = draw(st.permutations(pool.units[qt]))[:2]
+        e1, e2 = draw(st.sampled_from([(1, 1), (1, 2), (2, 1), (2, -1), (1, -2)]))
+        fa = [[c1, u1, e1], [c2, u2, e2]]
+        fb = [[draw(st.sampled_from(pool.cats[qt])), draw(st.sampled_from(pool.units[qt])), e1 + e2]]
+        if draw(st.booleans()):
+            qt3 = draw(pool.qt_strategy())
+            if qt3 != qt:
+                e3 = draw(st.sampled_from([1, -1, 2]))
+                fa.append([draw(st.sampled_from(pool.cats[qt3])), draw(st.sampled_from(pool.units[qt3])), e3])
+                fb.append([draw(st.sampled_from(pool.cats[qt3])), draw(st.sampled_from(pool.units[qt3])), e3])
+        return {
+            "mixed": True,
+            "a": fa,
+            "b": fb,
+            "kind": draw(st.sampled_from(["scalar", "scalar", "list", "ndarray"])),
+            "x": draw(gen.moderate_values(1e-3, 1e4)),
+            "y": draw(gen.moderate_values(1e-3, 1e4)),
+            "op": draw(st.sampled_from(["+", "-"])),
+        }
+
+    return pair_case(), affine_case(), affine_derived_case(), mixed_case()
 
 
 def _fix_case(case):
@@ -248,7 +328,15 @@ def run_shard(spec, ctx):
     db = env.new_db("posc")
     with env.pushed(db):
         ch = Checker(ctx, db)
-        pair_case, affine_case, affine_derived_case = _strategies(ch)
+        pair_case, affine_case, affine_derived_case, mixed_case = _strategies(ch)
+
+        def t4():
+            @given(mixed_case)
+            def test(case):
+                core.guarded(ctx, ch.check_mixed, case)
+
+            return test
+
         seed = spec["seed"] * 1000 + spec["shard"]
 
         def t3():
@@ -275,12 +363,15 @@ def run_shard(spec, ctx):
         core.hunt(ctx, t1, seed, spec["n"])
         core.hunt(ctx, t2, seed + 1, max(100, spec["n"] // 3))
         core.hunt(ctx, t3, seed + 2, max(100, spec["n"] // 3))
+        core.hunt(ctx, t4, seed + 3, max(100, spec["n"] // 4))
 
 
 def replay(case, ctx):
     db = env.new_db("posc")
     with env.pushed(db):
         ch = Checker(ctx, db)
+        if case.get("mixed"):
+            return core.replay_guarded(ctx, ch.check_mixed, case)
         if "da" in case:
             return core.replay_guarded(ctx, ch.check_pair, _fix_case(case))
         return core.replay_guarded(ctx, ch.check_affine, case)
